@@ -10,6 +10,8 @@
                                                   -> ((out1 arg1) (out2 arg2)) | (-1 code)
      (6 info (sizes...))     Info.InstantiateWithSizes -> (1 info)            | (-1 code)
      (7 str)                 big.Int.SetString(s, 0)   -> (1 value)           | (-1 1)
+     (8 ioarg (prev?) (gin...))  IOArg.Set(result, ...) on a destination holding prev
+                             (() = nil)          -> (1 value (wire bits...)) | (-1 code)
 
    info  = (kind bits arraysize (elem?) (fields...) concrete)
    ioarg = (info (compound...))
@@ -111,4 +113,9 @@ Definition run_c13 (inp : sx) : sx :=
     | Some z => SL [SZ 1; SZ z]
     | None => sx_err 1
     end
+  else if op =? 8 then
+    (* IOArg.Set on a caller-supplied destination: (8 ioarg (prev?) (gin...)) *)
+    let io := ioarg_of_sx (nthx 1 inp) in
+    let prev := match getL (nthx 2 inp) with [] => None | p :: _ => Some (getZ p) end in
+    sx_of_res (sx_value_wires (i_bits (a_type io))) (set_into prev io (map gin_of_sx (getL (nthx 3 inp))))
   else sx_err 99.
